@@ -1,16 +1,15 @@
 /-
   The whole run loop with the StochasticNetwork: `Acn.EventCore.runG` (sim-core's loop over an
   arbitrary queue and network, AcnModel/EventCoreG.lean) instantiated with the C19 network model,
-  plus the per-period `post_charging_update` call of `Simulator.run` (simulator.py:139) that
-  `bodyG` has no hook for: `bodyGP` = `bodyG`, then `post` on the network state.
-  (`post` only touches the network, `advance` only the iteration counter, so running it after
-  `bodyG`'s `advance` is the same as running it before; it is given the period index of the
-  iteration it belongs to.)
+  with the per-period `post_charging_update` call of `Simulator.run` (simulator.py:139) through the
+  `post` hook of `bodyGP` / `runGP` (AcnModel/EventCoreGP.lean; `post` only touches the network,
+  `advance` only the iteration counter, so running it after `bodyG`'s `advance` is the same as
+  running it before; it is given the period index of the iteration it belongs to).
 
   The choice stream `cs` and the per-period `fully_charged` inputs `full` are parameters; the
   number of draws made so far is part of the network state (`Net.draws`).
 -/
-import AcnModel.EventCoreG
+import AcnModel.EventCoreGP
 import AcnModel.Stochastic
 
 namespace Acn.Stoch
@@ -35,31 +34,6 @@ def stochasticNet (cs : Nat → Nat) : NetOps Net where
 /-- `post_charging_update` of period `t` -/
 def stochasticPost (full : Nat → Sess → Bool) (t : Nat) (s : Net) : Net × Option EventCore.Err :=
   liftOp s (s.post (full t))
-
-section
-variable {σ : Type}
-
-/-- one trip round the loop including `self.network.post_charging_update()` -/
-def bodyGP (ops : QOps) (net : NetOps σ) (post : Nat → σ → σ × Option EventCore.Err) (cfg : Cfg)
-    (sched apply : CoreG σ → Option EventCore.Err) (g : CoreG σ) : CoreG σ × Option EventCore.Err :=
-  match bodyG ops net cfg sched apply g with
-  | (g', some e) => (g', some e)
-  | (g', none) =>
-    match post g.core.iter g'.net with
-    | (n', none) => ({ g' with net := n' }, none)
-    | (n', some e) => ({ g' with net := n' }, some e)
-
-def runGP (ops : QOps) (net : NetOps σ) (post : Nat → σ → σ × Option EventCore.Err) (cfg : Cfg)
-    (sched apply : CoreG σ → Option EventCore.Err) : Nat → CoreG σ → CoreG σ × Option EventCore.Err
-  | 0, g => (g, none)
-  | n + 1, g =>
-    if EventCore.guard g.core then
-      match bodyGP ops net post cfg sched apply g with
-      | (g', none) => runGP ops net post cfg sched apply n g'
-      | (g', some e) => (g', some e)
-    else (g, none)
-
-end
 
 /-- the network the loop starts with: the initial `station_id` of each EV is the session's
     pre-assigned station -/
